@@ -89,22 +89,33 @@ func segment(t *rapid.T) string {
 // S generates strings of domain S.
 func S() *rapid.Generator[string] {
 	return rapid.Custom(func(t *rapid.T) string {
-		switch rapid.IntRange(0, 9).Draw(t, "shape") {
-		case 0:
-			return ""
-		case 1, 2:
-			return segment(t)
-		case 3:
-			// a lone look-alike (most likely to change type when unquoted)
-			return rapid.SampledFrom(lookalikes).Draw(t, "look")
+		s := rawS(t)
+		// Multi-line strings that begin with white space fall under the YAML-leg carve-out; one
+		// of them switches a whole document's YAML output leg off, so they are kept rare
+		// (about one string in 400) rather than one in 40.
+		if !YAMLLegOK(s) && rapid.IntRange(0, 9).Draw(t, "keepcarveout") != 0 {
+			s = strings.TrimLeft(s, " \t\r\n")
 		}
-		n := rapid.IntRange(1, 5).Draw(t, "nseg")
-		var b strings.Builder
-		for i := 0; i < n; i++ {
-			b.WriteString(segment(t))
-		}
-		return b.String()
+		return s
 	})
+}
+
+func rawS(t *rapid.T) string {
+	switch rapid.IntRange(0, 9).Draw(t, "shape") {
+	case 0:
+		return ""
+	case 1, 2:
+		return segment(t)
+	case 3:
+		// a lone look-alike (most likely to change type when unquoted)
+		return rapid.SampledFrom(lookalikes).Draw(t, "look")
+	}
+	n := rapid.IntRange(1, 5).Draw(t, "nseg")
+	var b strings.Builder
+	for i := 0; i < n; i++ {
+		b.WriteString(segment(t))
+	}
+	return b.String()
 }
 
 // Simple generates tame strings (identifiers and short words): used where the
